@@ -41,8 +41,15 @@ def jobs(tier):
         # can sit on a self-loop before the edit (AA, GG in mixed-2)
         add("mixed-2", 7, 0, [("S", 2)], has_indel=True)
         add("mixed-2", 7, 0, [("S", 2)], has_indel=False)
+        # two edits at the minimum distance 3k+2 on a GENERATED graph with few walks whose vertices have different arc sets
+        add("loop-2", 15, 8, [("S", 2), ("S", 10)])
     else:
-        add("mixed-2", 7, 10, [("S", 2)], has_indel=False)
+        add("loop-2", 15, 8, [("S", 2), ("S", 10)])
+        add("loop-2", 16, 1, [("S", 3), ("I", 11)])
+        add("sparse-2", 15, 1, [("S", 2), ("S", 10)])
+        add("sparse-2", 15, 8, [("S", 2), ("S", 10)], has_indel=False)
+        add("sparse-2", 16, 1, [("I", 2), ("S", 10)])
+        add("sparse-2", 16, 12, [("S", 3), ("D", 11)])
         for p in (2, 3):
             for hi in (True, False):
                 add("mixed-2", 8, 0 if p == 2 else 10, [("S", p)], has_indel=hi)
@@ -70,7 +77,7 @@ def jobs(tier):
 def bounds(tier):
     js = jobs(tier)
     return {"graphs": sorted(set(j["graph"] for j in js)), "max_walk_length": max(j["n"] for j in js), "edits": "every kind, positions listed per job, every replacement nucleotide; "
-            "two edits only in thorough", "outside": "longer walks, more than two edits, other graphs"}
+            "two edits: sparse-2 in quick, more graphs in thorough", "outside": "longer walks, more than two edits, other graphs"}
 
 
 def apply_edits(e, wcodes, edits):
